@@ -116,19 +116,38 @@ class EquationParser(object):
                     varname = varname.replace('(0)', '')
                     self.InitialConditions[varname] = eqn
                     continue
-                eqn = eqn.replace('(t-1)', '(k-1)')
-                eqn = eqn.replace(' (k -1 )', '(k-1)')
-                pos = eqn.find('(k-1)')
-                if pos == -1:
-                    self.Endogenous.append((varname, eqn))
+                lag_eqn = eqn.replace('(t-1)', '(k-1)')
+                lag_eqn = lag_eqn.replace(' (k -1 )', '(k-1)')
+                pos = lag_eqn.find('(k-1)')
+                # A lag is a single variable name followed by (k-1) and nothing else. Anything else that
+                # happens to contain the text - e.g. 2*(k-1) - is an ordinary equation and is left as written.
+                if pos > -1 and len(lag_eqn[pos + 5:].strip()) == 0 and self.IsVariableName(lag_eqn[0:pos].strip()):
+                    self.Lagged.append((varname, lag_eqn[0:pos]))
                 else:
-                    self.Lagged.append((varname, eqn[0:pos]))
+                    self.Endogenous.append((varname, eqn))
             else:
                 self.Exogenous.append((varname, eqn))
         if not found_t:
             self.Endogenous.append(('t', 'k'))
             self.AllEquations['t'] = 'k'
         return msg
+
+    @staticmethod
+    def IsVariableName(s):
+        """
+        Is the string shaped like a variable name (letters, digits, underscores; not starting with a digit)?
+
+        >>> EquationParser.IsVariableName('HH__F')
+        True
+        >>> EquationParser.IsVariableName('2*')
+        False
+
+        :param s: str
+        :return: bool
+        """
+        if len(s) == 0 or s[0].isdigit():
+            return False
+        return all(c.isalnum() or c == '_' for c in s)
 
     def DumpEquations(self):  # pragma: no cover    [Should be free to change dump format without breaking tests...]
         """
